@@ -6,7 +6,21 @@
 //!   write                 bytes of Manifest::to_writer (hex)
 //!   rt                    to_writer, then from_reader: the records read back
 //!   read <hex>            Manifest::from_reader on these bytes
+//!   readm <hex>           Manifest::from_reader on these bytes; on success the records read REPLACE the
+//!                         case's manifest (what isect / cisect / superset index into from then on)
 //!   isect <A> <B>         (rows A).intersect_manifest(rows B), index lists into the case's manifest
+//!   cisect <A> <B>        Collection::new(rows A, empty storage).intersect_manifest(rows B): its manifest
+//!   superset <A> <B>      Collection::new(rows A, ..).check_superset(&Collection::new(rows B, ..)):
+//!                         `ok <n>` or `err <Variant>`
+//!   mcsv <hex> <map>      (sigs cases) a CSV document describing sketches of the case, spelled the way
+//!                         other tools write it (molecule type in any letter case, booleans
+//!                         0/1/true/False/TRUE, +/0-prefixed integers, permuted and extra columns, quoted
+//!                         fields); row p describes the map[p]-th sketch of the case (flat order);
+//!                         locations are signatures/d<i>.sig.  Answer: the records read.
+//!   lookup i csv          Collection::new(Manifest::from_reader(that document), MemStorage holding the
+//!                         signatures under those locations).sig_for_dataset(i)
+//!   lookup i csvzip       a zip with one entry per signature and THAT document as
+//!                         SOURMASH-MANIFEST.csv, Collection::from_zipfile, sig_for_dataset(i)
 //!   sig <name|~> <filename|~> ; sk <ksize> <mol> <num> <scaled> <tracked> <v|t> <mins> <abunds> <md5>
 //!   fromsig i <loc>       Record::from_sig(sig i, loc)
 //!   lookup i              Collection::from_sigs(all sigs).sig_for_dataset(i)
@@ -33,6 +47,7 @@ use sourmash::manifest::{Manifest, Record};
 use sourmash::signature::{Signature, SigsTrait};
 use sourmash::sketch::minhash::{max_hash_for_scaled, KmerMinHash, KmerMinHashBTree};
 use sourmash::sketch::Sketch;
+use sourmash::storage::{InnerStorage, MemStorage, Storage};
 use verif_harness::*;
 
 const SEED0: u64 = 1000;
@@ -347,6 +362,185 @@ fn gen_sketch(r: &mut Rng, res: u64, mol: &'static str, tracked: bool) -> GSk {
     GSk { ksize, mol, num, scaled, tracked, cont: if r.chance(1, 2) { 'v' } else { 't' }, mins, abunds }
 }
 
+
+fn respell_case(r: &mut Rng, s: &str) -> String {
+    match r.below(4) {
+        0 => s.to_string(),
+        1 => s.to_uppercase(),
+        2 => s.to_lowercase(),
+        _ => s.chars().map(|c| if r.chance(1, 2) { c.to_ascii_uppercase() } else { c.to_ascii_lowercase() }).collect(),
+    }
+}
+
+/// the CSV text of `recs` (fields in HEADER order as text, canonical spelling) in a dialect the
+/// reader accepts: respelled molecule types and booleans, prefixed integers, permuted / extra
+/// columns, quoting, CRLF
+fn render_respelled(r: &mut Rng, recs: &[Vec<String>]) -> Vec<u8> {
+    let term: &[u8] = if r.chance(1, 4) { b"\r\n" } else { b"\n" };
+    let quote_all = r.chance(1, 4);
+    let mut order: Vec<usize> = (0..11).collect();
+    if r.chance(1, 2) {
+        for i in (1..11).rev() {
+            let j = r.below(i as u64 + 1) as usize;
+            order.swap(i, j);
+        }
+    }
+    let mut names: Vec<String> = order.iter().map(|&i| HEADER[i].to_string()).collect();
+    let extra_pos = if r.chance(1, 3) { Some(r.below(names.len() as u64 + 1) as usize) } else { None };
+    if let Some(p) = extra_pos {
+        names.insert(p, "seed".into());
+    }
+    let bool_style = r.below(6);
+    let mut out: Vec<u8> = vec![];
+    if r.chance(3, 4) {
+        out.extend(b"# SOURMASH-MANIFEST-VERSION: 1.0\n");
+    }
+    let put = |out: &mut Vec<u8>, f: &[u8], force: bool| {
+        let special = f.iter().any(|b| b",\"\r\n#".contains(b));
+        if special || force {
+            out.push(b'"');
+            for &b in f {
+                if b == b'"' {
+                    out.push(b'"');
+                }
+                out.push(b);
+            }
+            out.push(b'"');
+        } else {
+            out.extend(f);
+        }
+    };
+    for (i, n) in names.iter().enumerate() {
+        if i > 0 {
+            out.push(b',');
+        }
+        put(&mut out, n.as_bytes(), quote_all);
+    }
+    out.extend(term);
+    for rec in recs {
+        let mut fields: Vec<String> = order
+            .iter()
+            .map(|&i| match i {
+                4 => respell_case(r, &rec[4]),
+                8 => {
+                    let t = rec[8] == "1";
+                    match if r.chance(1, 5) { r.below(6) } else { bool_style } {
+                        0 | 1 => rec[8].clone(),
+                        2 => (if t { "true" } else { "false" }).into(),
+                        3 => (if t { "True" } else { "False" }).into(),
+                        4 => (if t { "TRUE" } else { "FALSE" }).into(),
+                        _ => respell_case(r, if t { "true" } else { "false" }),
+                    }
+                }
+                3 | 5 | 6 | 7 if r.chance(1, 6) => format!("{}{}", *r.pick(&["+", "0", "00", "+0"]), rec[i]),
+                _ => rec[i].clone(),
+            })
+            .collect();
+        if let Some(p) = extra_pos {
+            fields.insert(p, (*r.pick(&["42", "", "x y", "DNA"])).to_string());
+        }
+        for (i, f) in fields.iter().enumerate() {
+            if i > 0 {
+                out.push(b',');
+            }
+            put(&mut out, f.as_bytes(), quote_all);
+        }
+        out.extend(term);
+    }
+    out
+}
+
+/// the `mcsv` line of a sigs case (see the head of the file); `lines` = its `sig` / `sk` lines
+fn gen_mcsv(r: &mut Rng, lines: &[String]) -> (String, u64) {
+    let mut st = St::default();
+    for l in lines {
+        let ws: Vec<&str> = l.split(' ').collect();
+        step(&mut st, &ws);
+    }
+    let base: Vec<Vec<String>> = st
+        .sigs
+        .iter()
+        .enumerate()
+        .flat_map(|(i, sig)| Record::from_sig(sig, &format!("signatures/d{}.sig", i)))
+        .map(|rec| {
+            vec![
+                rec.internal_location().to_string(),
+                rec.md5().clone(),
+                rec.md5()[0..8].to_string(),
+                rec.ksize().to_string(),
+                rec.moltype().to_string(),
+                rec.num().to_string(),
+                rec.scaled().to_string(),
+                rec.n_hashes().to_string(),
+                (rec.with_abundance() as u8).to_string(),
+                rec.name().clone(),
+                rec.filename().clone(),
+            ]
+        })
+        .collect();
+    let n = base.len() as u64;
+    let mut map: Vec<u64> = (0..n).collect();
+    if n > 0 && r.chance(1, 3) {
+        map = (0..r.range(1, n + 2)).map(|_| r.below(n)).collect();
+    }
+    let recs: Vec<Vec<String>> = map.iter().map(|&i| base[i as usize].clone()).collect();
+    (format!("mcsv {} {}", hex(&render_respelled(r, &recs)), show_nats(map.iter().cloned())), map.len() as u64)
+}
+
+/// a record (as `rec` words) that differs from `base` in column `c` and nowhere else; for the
+/// molecule column the two also differ after lower-casing (records that differ in the letter case of
+/// the molecule name only are the recorded finding corpus/C12/known-moltype-case.ops)
+fn vary_column(r: &mut Rng, base: &[String], c: usize) -> Vec<String> {
+    let mut v = base.to_vec();
+    let text = |h: &str| String::from_utf8(unhex(h)).unwrap();
+    match c {
+        0 | 1 | 2 | 9 | 10 => {
+            let old = text(&base[c]);
+            let new = match r.below(4) {
+                0 => format!("{}x", old),
+                1 if !old.is_empty() => old[..old.char_indices().last().unwrap().0].to_string(),
+                2 => format!(" {}", old),
+                _ => {
+                    let g = gen_string(r);
+                    if g == old { format!("{}#", old) } else { g }
+                }
+            };
+            v[c] = hex(new.as_bytes());
+        }
+        4 => {
+            let old = text(&base[4]).to_lowercase();
+            let mut new = match r.below(3) {
+                0 => gen_string(r),
+                _ => (*r.pick(&["DNA", "protein", "dayhoff", "hp", "dna", "Protein"])).to_string(),
+            };
+            if new.to_lowercase() == old {
+                new = if old == "hp" { "dayhoff".into() } else { "hp".into() };
+            }
+            v[4] = hex(new.as_bytes());
+        }
+        3 | 5 => {
+            let old: u64 = base[c].parse().unwrap();
+            v[c] = (match r.below(3) {
+                0 => (old + 1) % (1 << 32),
+                1 => (old + (1 << 32) - 1) % (1 << 32),
+                _ => if old == 0 { 21 } else { 0 },
+            })
+            .to_string();
+        }
+        6 | 7 => {
+            let old: u64 = base[c].parse().unwrap();
+            v[c] = (match r.below(3) {
+                0 => old.wrapping_add(1),
+                1 => old.wrapping_sub(1),
+                _ => if old == 0 { 1000 } else { 0 },
+            })
+            .to_string();
+        }
+        _ => v[8] = if base[8] == "1" { "0".into() } else { "1".into() },
+    }
+    v
+}
+
 fn gen(a: &Args) {
     let mut r = Rng::new(a.seed);
     let mut o = Out::new();
@@ -441,12 +635,71 @@ fn gen(a: &Args) {
             o.op(&format!("read {}", hex(&out)));
         }
         if n > 0 {
+            let pickn = |r: &mut Rng| -> Vec<u64> { (0..r.range(0, n)).map(|_| r.below(n)).collect() };
             for _ in 0..2 {
-                let pickn = |r: &mut Rng| -> Vec<u64> { (0..r.range(0, n)).map(|_| r.below(n)).collect() };
                 let (x, y) = (pickn(&mut r), pickn(&mut r));
                 o.op(&format!("isect {} {}", show_nats(x), show_nats(y)));
             }
+            let (x, y) = (pickn(&mut r), pickn(&mut r));
+            o.op(&format!("superset {} {}", show_nats(x), show_nats(y)));
+            // the manifest as a document in another dialect, read, and the same questions asked of
+            // the records read (a document with a defect is refused and leaves the manifest as it was)
+            if r.chance(1, 2) {
+                o.op(&format!("readm {}", hex(&render_variant(&mut r, &recs))));
+                let (x, y) = (pickn(&mut r), pickn(&mut r));
+                o.op(&format!("isect {} {}", show_nats(x), show_nats(y)));
+                let (x, y) = (pickn(&mut r), pickn(&mut r));
+                o.op(&format!("cisect {} {}", show_nats(x), show_nats(y)));
+                let x = pickn(&mut r);
+                let mut y = x.clone();
+                if r.chance(1, 2) {
+                    y.extend(pickn(&mut r));
+                } else if !y.is_empty() && r.chance(1, 2) {
+                    let i = r.below(y.len() as u64) as usize;
+                    y[i] = r.below(n);
+                }
+                o.op(&format!("superset {} {}", show_nats(x), show_nats(y)));
+            }
         }
+    }
+    // stream 1b: record equality column by column - a base record and, for every column in turn, a
+    // record that differs from it in that column only (internal_location and the derived md5short
+    // are the two columns equality must IGNORE)
+    let n1b = if a.cases > 0 { a.cases / 10 + 1 } else if thorough { 3000 } else { 150 };
+    for _ in 0..n1b {
+        o.case("pairs");
+        let mut base = gen_rec(&mut r);
+        if r.chance(3, 4) {
+            // what a manifest row usually looks like
+            base[4] = hex((*r.pick(&["DNA", "protein", "dayhoff", "hp"])).as_bytes());
+            base[3] = (*r.pick(&[21u64, 31, 7, 10])).to_string();
+            let scaled = r.chance(1, 2);
+            base[5] = if scaled { "0".into() } else { "500".into() };
+            base[6] = if scaled { "1000".into() } else { "0".into() };
+        }
+        o.op(&format!("rec {}", base.join(" ")));
+        for c in 0..11 {
+            o.op(&format!("rec {}", vary_column(&mut r, &base, c).join(" ")));
+        }
+        let all: Vec<u64> = (0..12).collect();
+        for c in 1..12u64 {
+            o.op(&format!("isect 0 {}", c));
+            o.op(&format!("isect {} 0", c));
+            o.op(&format!("superset 0 {}", c));
+            if r.chance(1, 3) {
+                o.op(&format!("superset 0,{} 0,{}", (c % 11) + 1, c));
+            }
+        }
+        o.op(&format!("isect {} 0", show_nats(all.clone())));
+        o.op(&format!("isect 0 {}", show_nats(all.clone())));
+        o.op(&format!("cisect {} {}", show_nats(all.clone()), r.range(0, 11)));
+        for _ in 0..3 {
+            let pick = |r: &mut Rng| -> Vec<u64> { (0..r.range(0, 5)).map(|_| r.below(12)).collect() };
+            let (x, y) = (pick(&mut r), pick(&mut r));
+            o.op(&format!("isect {} {}", show_nats(x.clone()), show_nats(y.clone())));
+            o.op(&format!("superset {} {}", show_nats(x), show_nats(y)));
+        }
+        o.op(&format!("superset {} {}", show_nats(all.clone()), show_nats(all.clone())));
     }
     // stream 2: records built from signatures, and the way back from a record to its sketch
     let n2 = if a.cases > 0 { a.cases } else if thorough { 20_000 } else { 900 };
@@ -455,6 +708,7 @@ fn gen(a: &Args) {
         let nsig = r.range(1, 4);
         let mut total = 0;
         let mut nameless_multi = false;
+        let mut case_lines: Vec<String> = vec![];
         for _ in 0..nsig {
             // pairwise different (residue ksize, molecule, abundance) inside a signature: the
             // look-up can tell the sketches apart (the residue is recorded as a known finding)
@@ -465,6 +719,7 @@ fn gen(a: &Args) {
             let name = if none_name { "~".to_string() } else { hex(gen_string(&mut r).as_bytes()) };
             let fname = if r.chance(1, 2) { "~".to_string() } else { hex(gen_string(&mut r).as_bytes()) };
             o.op(&format!("sig {} {}", name, fname));
+            case_lines.push(format!("sig {} {}", name, fname));
             let mut seen: Vec<(u64, &str, bool)> = vec![];
             for _ in 0..n {
                 let key = (*r.pick(&[7u64, 10, 21, 31]), *r.pick(&MOLS), r.chance(1, 2));
@@ -475,6 +730,7 @@ fn gen(a: &Args) {
                 let g = gen_sketch(&mut r, key.0, key.1, key.2);
                 let md5 = md5_of(&build_sketch(&format!("sk {}", g.words()).split(' ').collect::<Vec<_>>(), 0));
                 o.op(&format!("sk {} {}", g.words(), md5));
+                case_lines.push(format!("sk {} {}", g.words(), md5));
             }
             if name == "~" && fname == "~" && seen.len() != 1 {
                 nameless_multi = true;
@@ -484,9 +740,19 @@ fn gen(a: &Args) {
         for i in 0..nsig {
             o.op(&format!("fromsig {} {}", i, hex(gen_string(&mut r).as_bytes())));
         }
-        let _ = nameless_multi; // from_sigs panics on such a signature: both sides say PANIC
+        // from_sigs panics on such a signature: both sides say PANIC
         for i in 0..total {
             o.op(&format!("lookup {}", i));
+        }
+        // the collection described by a CSV document that other tools wrote (a third of the cases)
+        if c2 % 3 == 1 && !nameless_multi && total > 0 {
+            let (line, nrows) = gen_mcsv(&mut r, &case_lines);
+            o.op(&line);
+            for be in ["csv", "csvzip"] {
+                for i in 0..nrows {
+                    o.op(&format!("lookup {} {}", i, be));
+                }
+            }
         }
         if r.chance(1, 4) {
             o.op(&format!("lookup {}", total + r.below(2)));
@@ -557,6 +823,8 @@ struct St {
     /// bumped by every `sig` / `sk` line: a stored collection is rebuilt when the signatures changed
     version: u64,
     stored: std::collections::BTreeMap<String, Stored>,
+    /// the document of the case's `mcsv` line
+    doc: Vec<u8>,
 }
 
 /// a collection over one of the non-memory storages, built once per case and backend
@@ -627,7 +895,7 @@ fn zip_bytes(entries: &[(String, Vec<u8>)]) -> Vec<u8> {
     out
 }
 
-fn build_stored(sigs: &[Signature], be: &str, version: u64) -> Stored {
+fn build_stored(sigs: &[Signature], be: &str, version: u64, doc: &[u8]) -> Stored {
     use camino::Utf8PathBuf;
     use verif_harness::index_util::{scratch_dir, write_sig_files};
     let dir = scratch_dir();
@@ -654,6 +922,24 @@ fn build_stored(sigs: &[Signature], be: &str, version: u64) -> Stored {
             let mut buf = vec![];
             m.to_writer(&mut buf).unwrap();
             entries.push(("SOURMASH-MANIFEST.csv".into(), buf));
+            let p = dir.path().join("c.zip");
+            std::fs::write(&p, zip_bytes(&entries)).unwrap();
+            Collection::from_zipfile(Utf8PathBuf::from_path_buf(p).unwrap()).map_err(err_name)
+        }
+        "csv" => {
+            let storage = MemStorage::new();
+            for (i, sig) in sigs.iter().enumerate() {
+                storage.save_sig(&format!("signatures/d{}.sig", i), sig.clone()).map_err(err_name)?;
+            }
+            let m = Manifest::from_reader(doc).map_err(err_name)?;
+            Ok(Collection::new(m, InnerStorage::new(storage)))
+        }
+        "csvzip" => {
+            let mut entries: Vec<(String, Vec<u8>)> = vec![];
+            for (i, sig) in sigs.iter().enumerate() {
+                entries.push((format!("signatures/d{}.sig", i), serde_json::to_vec(&vec![sig]).unwrap()));
+            }
+            entries.push(("SOURMASH-MANIFEST.csv".into(), doc.to_vec()));
             let p = dir.path().join("c.zip");
             std::fs::write(&p, zip_bytes(&entries)).unwrap();
             Collection::from_zipfile(Utf8PathBuf::from_path_buf(p).unwrap()).map_err(err_name)
@@ -788,6 +1074,34 @@ fn step(st: &mut St, ws: &[&str]) -> String {
             let b = idx_list(st, ws[2]);
             show_records(a.intersect_manifest(&b).iter())
         }
+        "cisect" => {
+            let mut c = Collection::new(idx_list(st, ws[1]), InnerStorage::new(MemStorage::new()));
+            c.intersect_manifest(&idx_list(st, ws[2]));
+            show_records(c.manifest().iter())
+        }
+        "superset" => {
+            let a = Collection::new(idx_list(st, ws[1]), InnerStorage::new(MemStorage::new()));
+            let b = Collection::new(idx_list(st, ws[2]), InnerStorage::new(MemStorage::new()));
+            match a.check_superset(&b) {
+                Ok(n) => format!("ok {}", n),
+                Err(e) => err_name(e),
+            }
+        }
+        "readm" => match Manifest::from_reader(&unhex(ws[1])[..]) {
+            Ok(m) => {
+                st.recs = m.iter().cloned().collect();
+                show_records(m.iter())
+            }
+            Err(_) => "err CsvError".into(),
+        },
+        "mcsv" => {
+            st.doc = unhex(ws[1]);
+            st.version += 1;
+            match Manifest::from_reader(&st.doc[..]) {
+                Ok(m) => show_records(m.iter()),
+                Err(_) => "err CsvError".into(),
+            }
+        }
         "sig" => {
             let mut sig = Signature::default();
             if ws[1] != "~" {
@@ -823,7 +1137,7 @@ fn step(st: &mut St, ws: &[&str]) -> String {
             let be = ws[2];
             if st.stored.get(be).map(|b| b.version) != Some(st.version) {
                 st.stored.remove(be);
-                let b = build_stored(&st.sigs, be, st.version);
+                let b = build_stored(&st.sigs, be, st.version, &st.doc);
                 st.stored.insert(be.to_string(), b);
             }
             match &st.stored[be].coll {
